@@ -1,5 +1,5 @@
 """C17: incomplete or damaged compiled-rule files are rejected, never half-loaded."""
-import os, sys, json
+import os, sys, json, re
 import vlib, build, rulegen
 from vlib import hx, unhx
 
@@ -170,6 +170,8 @@ def run(chk):
                 cur["resave"] = l.split("resave=")[1]
             elif l.startswith("smoke="):
                 cur["smoke"] = int(l[6:])
+            elif l.startswith("filerc="):
+                cur["filerc"] = l
             elif l.startswith("crash"):
                 cur["crash"] = l
     # model
@@ -205,6 +207,17 @@ def run(chk):
                               "corrupted header/table (%s) loads successfully with different content" % label, replay)
         elif kind in ("random", "flip") and crashed:
             chk.violation("malformed-crash", "malformed file (%s) crashes: %s" % (label, im["crash"]), replay)
+        # the path entry point yr_rules_load must give the stream entry point's verdict and keep nothing: no descriptor stays open
+        fr = im.get("filerc", "")
+        mfr = re.match(r"filerc=(-?\d+) fds=(\d+)/(\d+)", fr)
+        if mfr and not crashed:
+            if int(mfr.group(1)) != im.get("rc"):
+                chk.violation("file-entry-rc", "yr_rules_load on a file with these bytes returns %s, yr_rules_load_stream %s (%s)" % (mfr.group(1), im.get("rc"), label), replay)
+            elif mfr.group(2) != mfr.group(3):
+                chk.violation("file-entry-descriptor", "yr_rules_load (%s, rc=%s) leaves %d descriptor(s) open: a rejected file must leave nothing behind"
+                              % (label, mfr.group(1), int(mfr.group(3)) - int(mfr.group(2))), replay)
+            else:
+                chk.add("file_entry_agrees")
         # theorem accepted_file_is_saved_image, on the implementation: an accepted file is the written image of what was loaded (+ unread tail)
         if accepted and not crashed and im.get("resave") is not None and not mo.startswith("bad") and not hx(bs).startswith(im["resave"]):
             chk.violation("accepted-not-saved-image", "file accepted (%s) but it is not the image the saver writes for the loaded rules (+ unread tail): "
